@@ -821,6 +821,15 @@ func TestPropDocumentKeyOrder(t *testing.T) {
 		if sig1.Value != sig2.Value || !bytes.Equal(pay1, pay2) {
 			t.Fatalf("document key order changes the payload:\n%s\n%s\n---\n%s\n---\n%s", pay1, pay2, yb, yb2)
 		}
+		// and the step read back from its own document has the content - hence the payload - of the step
+		// that was written (every plugin of the list, repeated ones included, every dimension, ...)
+		sig0, pay0, err := signTap(ctx, kp, world{Step: step, Penv: penv, Repo: "r"})
+		if err != nil {
+			t.Fatal(err)
+		}
+		if sig0.Value != sig1.Value || !bytes.Equal(pay0, pay1) {
+			t.Fatalf("the step parsed from its own document signs differently from the step that was written:\nwritten: %s\nparsed:  %s\n---\n%s", pay0, pay1, yb)
+		}
 		nt := false
 		for _, p := range s1.Plugins {
 			if m, ok := p.Config.(map[string]any); ok && len(m) >= 2 {
